@@ -281,13 +281,27 @@ def init2022Tail (C : Crypto) (env : DecEnv) (d : Dec) (s : Sess) (b : Bytes)
   else
     .take { chunk := some cd, sess := s } consumed (.accepted salt :: via.map .byte)
 
+/-- which key opens the request: the context key, or — when identity headers are required — the key
+of the registered user whose identity hash the identity header decrypts to (`new_decoder_with_eih`) -/
+def init2022Key (C : Crypto) (ctx : Ctx) (s : Sess) (requireEih : Bool) (salt header : Bytes) : Option (Bytes × Option User) :=
+  if requireEih then
+    let sub := C.blake3Derive identitySubkeyCtx (ctx.key ++ salt)
+    let h := C.aesDec (sub.take ctx.kind.alg.keyLen) (header.take 16)
+    match findUser ctx.users h with
+    | some u => some (u.key, some u)
+    | none => none
+  else some (ctx.key, s.user)
+
+def requireEih (ctx : Ctx) (s : Sess) : Bool :=
+  decide (s.mode = .server) && ctx.kind.supportEih && decide (ctx.users.length > 0)
+
 /-- `init_aead_2022_payload_decoder` as a unit step over the whole first read -/
 def init2022 (C : Crypto) (ctx : Ctx) (env : DecEnv) (d : Dec) (b : Bytes) : Fr.Step Dec Ev :=
   let n := ctx.kind.n
   let s := d.sess
   let requestSaltLen := if s.mode = .server then 0 else n
-  let requireEih := s.mode = .server ∧ ctx.kind.supportEih ∧ ctx.users.length > 0
-  let eihLen := if requireEih then 16 else 0
+  let req := requireEih ctx s
+  let eihLen := if req then 16 else 0
   let headerLen := eihLen + 1 + 8 + requestSaltLen + 2 + 16
   if b.length < n then .need else       -- `init_payload_decoder` waits for the salt …
   if b.length < n + headerLen then .fail d 0 else   -- … but the fixed header must come with it
@@ -296,16 +310,7 @@ def init2022 (C : Crypto) (ctx : Ctx) (env : DecEnv) (d : Dec) (b : Bytes) : Fr.
   let s := { s with requestSalt := some salt }
   let d := { d with sess := s }
   let header := (b.drop n).take headerLen
-  -- decoder key: EIH lookup or the context key
-  let keyUser : Option (Bytes × Option User) :=
-    if requireEih then
-      let sub := C.blake3Derive identitySubkeyCtx (ctx.key ++ salt)
-      let h := C.aesDec (sub.take ctx.kind.alg.keyLen) (header.take 16)
-      match findUser ctx.users h with
-      | some u => some (u.key, some u)
-      | none => none
-    else some (ctx.key, s.user)
-  match keyUser with
+  match init2022Key C ctx s req salt header with
   | none => .fail d 0
   | some (key, user) =>
   let s := { s with user := user }
